@@ -296,7 +296,27 @@ def run_B(case):
     if bad:
         viol.append({"clause": "wrong_submodel", "key": key, "detail": f"{bad} of 731 dates; first {first} (layout {case['layout']}, maps {case['smap']}/{case['wmap']})"})
     used = sorted(set(split))
-    return {"behaviour": [len(comps), len(used)], "violations": viol, "stats": {"dates": 731}}
+    # the same object then predicts two more frames of the SAME period, each with one day lacking its temperature - not the same day
+    # (two weather sources): every remaining day still goes to the component of its own cell
+    for gap in (66, 67 + 56):
+        T = 50.0 + (np.arange(731) % 30)
+        T[gap] = np.nan
+        pg = m.predict(em.DailyReportingData(pd.DataFrame({"temperature": T}, index=idx), is_electricity_data=True))
+        badg = 0
+        firstg = None
+        if not pg.index.equals(idx):
+            viol.append({"clause": "row_count", "key": dict(key, history="second_frame_of_the_same_period"), "detail": f"{len(pg)} rows for 731 dates"})
+            continue
+        for j, (t, owners, sp, pr) in enumerate(zip(idx, exp, pg["model_split"].tolist(), pg["predicted"].to_numpy(float))):
+            if j == gap:
+                continue
+            if not (len(owners) == 1 and sp == comps[owners[0]] and pr == float(owners[0] + 1)):
+                badg += 1
+                firstg = firstg or f"{t.date()}: model_split={sp!r} predicted={pr!r}, expected component {[comps[o] for o in owners]}"
+        if badg:
+            viol.append({"clause": "wrong_submodel", "key": dict(key, history="second_frame_of_the_same_period"),
+                         "detail": f"{badg} of 730 dates after the object had predicted the same period with another gap; first {firstg} (layout {case['layout']})"})
+    return {"behaviour": [len(comps), len(used)], "violations": viol, "stats": {"dates": 731 * 3}}
 
 
 # ------------------------------------------------------------------ C: selection on real fits
@@ -308,11 +328,13 @@ FITS = [
     dict(name="noisy", usage=dict(noise=0.2, seed=5)),
     dict(name="short330", usage=dict(noise=0.05, seed=6, weekend_factor=1.4), days=330),
     dict(name="berlin_weekend", usage=dict(noise=0.03, seed=2, weekend_factor=1.6), zone="Europe/Berlin"),
+    # a meter that one split reproduces EXACTLY: 30 on weekdays, 20 on weekends, whatever the weather (zero weighted error)
+    dict(name="exact_two_levels", usage="two_levels"),
 ]
 
 
 def cases_C(tier):
-    fits = FITS if tier == "thorough" else FITS[:4] + FITS[-1:]
+    fits = FITS if tier == "thorough" else FITS[:4] + FITS[-2:]
     out = [{"part": "C", "fit": f["name"], "profile": "current"} for f in fits]
     if tier == "thorough":
         out += [{"part": "C", "fit": f["name"], "profile": "dev_all_splits"} for f in FITS[:4]]
@@ -335,8 +357,12 @@ def run_C(case):
     import opendsm.eemeter as em
 
     spec = next(f for f in FITS if f["name"] == case["fit"])
-    df = ds.daily_frame(start="2021-01-01", days=spec.get("days", 365), tz=spec.get("zone", "America/Chicago"), climate="continental", wseed=7,
-                        **spec["usage"])
+    if spec["usage"] == "two_levels":
+        df = ds.daily_frame(start="2021-01-01", days=365, tz="America/Chicago", climate="continental", wseed=7, noise=0.0, seed=1)
+        df["observed"] = np.where(df.index.dayofweek >= 5, 20.0, 30.0)
+    else:
+        df = ds.daily_frame(start="2021-01-01", days=spec.get("days", 365), tz=spec.get("zone", "America/Chicago"), climate="continental", wseed=7,
+                            **spec["usage"])
     settings = None
     if case["profile"] == "dev_all_splits":
         settings = make_settings((1, 1, 1, 1), 0, "default", "default")
@@ -369,6 +395,29 @@ def run_C(case):
                      "detail": f"chosen {m.best_combination} criterion {crit[m.combinations.index(m.best_combination)]!r} > {best} {min(crit)!r}"})
     elif m.best_combination != best:
         viol.append({"clause": "tie_not_first", "key": key, "detail": f"chosen {m.best_combination}, first minimum {best}"})
+    if m.settings.split_selection.criteria.lower() == "bic":
+        # the default criterion recomputed from the fitted components alone (N, weighted SSE per component), not through the library's
+        # criterion functions: BIC/N = ln(2 pi) + ln(loss/N) + 1 + c0 K ln(N)^d0 / N with loss = wRMSE / wRMSE(unsplit), K = #components;
+        # a candidate with zero weighted error has BIC = -inf
+        c0, d0 = float(m.settings.split_selection.penalty_multiplier), float(m.settings.split_selection.penalty_power)
+
+        def wrmse(c):
+            parts = [m.fit_components[x] for x in c.split("__")]
+            return float(np.sqrt(sum(float(q.wSSE) for q in parts) / sum(int(q.N) for q in parts)))
+
+        base = wrmse("fw-su_sh_wi")
+        refs = []
+        for c in m.combinations:
+            N = sum(int(m.fit_components[x].N) for x in c.split("__"))
+            loss = wrmse(c) / base if base > 0 else 0.0
+            K = len(c.split("__"))
+            refs.append(-np.inf if loss <= 0 else float(np.log(2 * np.pi) + np.log(loss / N) + 1 + c0 * K * np.log(N) ** d0 / N))
+        got = refs[m.combinations.index(m.best_combination)] if m.best_combination in m.combinations else np.inf
+        lo = min(refs)
+        if got > lo and not (np.isfinite(lo) and abs(got - lo) <= 1e-9 * max(1.0, abs(lo))):
+            viol.append({"clause": "not_minimum_of_reference_bic", "key": key,
+                         "detail": f"chosen {m.best_combination} has BIC/N {got!r} by the textbook formula; {m.combinations[int(np.argmin(refs))]} has {lo!r} "
+                                   f"(weighted errors {wrmse(m.best_combination)!r} vs {wrmse(m.combinations[int(np.argmin(refs))])!r})"})
     for c in m.combinations:
         err = cover_errors(c)
         if err:
